@@ -70,6 +70,22 @@ REQUIRED_THOROUGH = ["subr:bias32768", "enc:32767"]
 # geometry helpers on top of vf.geom
 
 
+def _same_program_16_16(a, b):
+    """Token sequences equal; a number of the source that is not a multiple of 1/65536 comes back as the nearest one
+    (Type 2 operands are integers or 16.16 fixed numbers): at most half a unit (2**-17) away."""
+    a, b = list(a), list(b)
+    if len(a) != len(b):
+        return False
+    for x, y in zip(a, b):
+        nx, ny = isinstance(x, (int, float)) and not isinstance(x, bool), isinstance(y, (int, float)) and not isinstance(y, bool)
+        if nx and ny:
+            if x != y and (abs(x - y) > 2.0**-17 or x * 65536 != int(x * 65536)):
+                return False
+        elif x != y:
+            return False
+    return True
+
+
 def _maxabs(ops):
     m = 0.0
     for _, pts in ops:
@@ -456,7 +472,7 @@ def check_flat_program(acc, prog, dwx, nwx, case, tag="", variants=None):
             cs2 = T2CharString(bytecode=bc, private=priv)
             cs2.decompile()
             prog2 = cs2.program
-        if prog2 != list(prog):
+        if not _same_program_16_16(prog2, prog):
             acc.fail("compile", "decompile(compile(p)) != p", "%s %s -> %s" % (tag, short(prog, 250), short(prog2, 250)), case, where)
         rb = ref_t2.run(bytes(bc), None, None, "cff", dwx, nwx)
         ok, d = exact_same(r0.ops, rb.ops, tol)
@@ -561,7 +577,7 @@ def check_cff2_program(acc, case):
             bc = cs.bytecode
             cs2 = T2CharString(bytecode=bc, private=priv)
             cs2.decompile()
-        if cs2.program != list(prog):
+        if not _same_program_16_16(cs2.program, prog):
             acc.fail("cff2-compile", "decompile(compile(p)) != p", "%s -> %s" % (short(prog, 250), short(cs2.program, 250)), case)
         rb = ref_t2.run(bytes(bc), None, None, "cff2", num_regions=nr, scalars=scalar_sets[1])
         ok, d = exact_same(base[1], rb.ops, tolbase * max(1.0, _maxabs(base[1])))
